@@ -19,6 +19,17 @@ ES = "fastpasta::stats::stats_collector::error_stats::ErrorStats::"
 STORE = "core::sync::atomic::Atomic::<bool>::store"
 
 
+def _is_err_stat(b, op):
+    """the operand is a StatType::Error(..)/Fatal(..) value"""
+    for o in b.origins(op):
+        x = o
+        while isinstance(x, tuple) and x and x[0] in ("ref", "proj"):
+            x = x[1]
+        if isinstance(x, tuple) and x and x[0] == "agg" and (x[1].get("adt") or "").endswith("stats::StatType") and x[1].get("vname") in ("Error", "Fatal"):
+            return True
+    return False
+
+
 def run(ctx, rep):
     f = ctx.facts()
     cg = ctx.cg()
@@ -78,14 +89,27 @@ def run(ctx, rep):
     # ---------- R16.2 flag completeness
     cr = CTRL + "run"
     if cr in f.fns:
-        b = cg.body(cr)
+        # Controller's own helper methods (update, small wrappers) are inlined: the rule is about where the flag is
+        # stored, not about which method contains the store
+        from ..mir import Body, inline_fn
+        b = Body(inline_fn(f, cr, lambda c: c.startswith(CTRL), max_depth=3, max_blocks=3000))
         stores = [(bb, t) for bb, t, cal, c in b.calls() if cal == STORE and "any_errors_flag" in show_origin(b.origin(t["args"][0]))]
         recv = [bb for bb, t, cal, c in b.calls() if cal == "flume::Receiver::<T>::recv"]
         val = [bb for bb, t, cal, c in b.calls() if cal == SCOL + "validate_other_stats"]
+        # stores inside the receive loop are allowed only right after an Error/Fatal message was collected (early raise)
+        coll = [(bb, show_origin(b.origin(t["args"][1]))) for bb, t, cal, c in b.calls() if cal == SCOL + "collect"]
+        errcoll = [bb for bb, so in coll if so.startswith("fastpasta::stats::StatType{") and False] + [bb for bb, t, cal, c in b.calls() if cal == SCOL + "collect" and _is_err_stat(b, t["args"][1])]
+        early = [s_ for s_ in stores if b.on_cycle(s_[0])]
+        # … or directly before it (the collect is inevitable from the store within the same loop iteration)
+        bad_early = [s_[0] for s_ in early if not any(b.dominates(e, s_[0]) for e in errcoll)
+                     and not (errcoll and b.all_paths_pass(s_[0], errcoll, to=list(recv) + b.return_blocks()))]
+        after = [s_ for s_ in stores if not b.on_cycle(s_[0])]
         # the store that is not downstream of validate_other_stats is the "errors were reported" store
-        main_store = [s for s in stores if not any(s[0] in b.reachable_from(v) for v in val)]
-        rep.check(len(stores) == 2 and len(main_store) == 1, "R16.2", "R16.2|stores", "two stores of the any-errors flag: errors reported, statistics mismatch", cr,
-                  "stores of any_errors_flag: %d (expected 2)" % len(stores))
+        main_store = [s_ for s_ in after if not any(s_[0] in b.reachable_from(v) for v in val)]
+        mism_store = [s_ for s_ in after if any(s_[0] in b.reachable_from(v) for v in val)]
+        rep.check(len(main_store) == 1 and len(mism_store) == 1 and not bad_early, "R16.2", "R16.2|stores",
+                  "the any-errors flag is stored after the receive loop (errors reported) and on a statistics mismatch; stores inside the loop only directly after an Error/Fatal was collected (%d)" % len(early), cr,
+                  "stores of any_errors_flag: after the loop %d, on mismatch %d, inside the loop not tied to a collected error %s" % (len(main_store), len(mism_store), bad_early))
         if main_store:
             sb = main_store[0][0]
             guards = set()
